@@ -1,5 +1,5 @@
 import Zog.Props.FactsOK
-import Zog.Mono
+import Zog.Order
 
 /-!
 # C09 — results do not depend on map iteration or key insertion order
@@ -13,22 +13,8 @@ open Zog Spec
 
 /-- whatever the runtime's iteration order, every declared field is visited exactly once: the
     visit order is a permutation of the declared keys for EVERY oracle -/
-theorem insertRank_perm (obs : List String) (k : String) (xs : List String) :
-    (Engine.insertRank obs k xs).Perm (k :: xs) := by
-  induction xs with
-  | nil => exact List.Perm.refl _
-  | cons x xs ih =>
-    unfold Engine.insertRank
-    split
-    · exact List.Perm.refl _
-    · exact (List.Perm.cons x ih).trans (List.Perm.swap k x xs)
-
-theorem visit_order_is_permutation (obs keys : List String) : (Engine.orderOf obs keys).Perm keys := by
-  induction keys with
-  | nil => exact List.Perm.refl _
-  | cons k ks ih =>
-    unfold Engine.orderOf
-    exact (insertRank_perm obs k _).trans (List.Perm.cons k ih)
+theorem visit_order_is_permutation (obs keys : List String) : (Engine.orderOf obs keys).Perm keys :=
+  Spec.orderOf_perm obs keys
 
 theorem visit_order_same_length (obs keys : List String) : (Engine.orderOf obs keys).length = keys.length :=
   (visit_order_is_permutation obs keys).length_eq
@@ -49,6 +35,38 @@ theorem engine_is_spec_for_every_order (fmt : String → String → List (String
 theorem single_field_order_independent (obs₁ obs₂ : List String) (k : String) :
     Engine.orderOf obs₁ [k] = Engine.orderOf obs₂ [k] := by
   simp [Engine.orderOf, Engine.insertRank]
+
+/-! ## what holds: order independence of every PostTransform-free schema -/
+
+/-- **C09_partial (reference semantics).** For EVERY schema without PostTransforms (whose struct
+    fields address distinct Go fields), every input, destination and mode, and EVERY two field
+    visit oracles: the destination is the same, and the issues — hence every key of the issue map
+    with its multiset of issues — and the callback events are the same up to order. -/
+theorem C09_partial_spec (fmt : String → String → List (String × String) → String) (ω₁ ω₂ : String → List String)
+    (m : Mode) (s : Schema) (hp : s.postFree = true) (hw : s.WF) (tag : Option String) (v : Val) (d : DVal) :
+    (Spec.run ⟨fmt, ω₁⟩ m s tag v d).1 = (Spec.run ⟨fmt, ω₂⟩ m s tag v d).1 ∧
+    (Spec.run ⟨fmt, ω₁⟩ m s tag v d).2.sink.Perm (Spec.run ⟨fmt, ω₂⟩ m s tag v d).2.sink ∧
+    (Spec.run ⟨fmt, ω₁⟩ m s tag v d).2.log.Perm (Spec.run ⟨fmt, ω₂⟩ m s tag v d).2.log := by
+  obtain ⟨h1, h2, h3⟩ := Spec.proc_order_indep fmt ω₁ ω₂ m s hp hw tag [] v d
+  exact ⟨h1, h2, h3⟩
+
+/-- **C09_partial (mechanism model, current code facts).** The same for the engine with the flags
+    on the shared child context: no field visit order changes the destination or the set of issues. -/
+theorem C09_partial (fmt : String → String → List (String × String) → String) (ω₁ ω₂ : String → List String)
+    (m : Mode) (s : Schema) (hp : s.postFree = true) (hw : s.WF) (tag : Option String) (v : Val) (d : DVal) :
+    (Engine.run ⟨fmt, ω₁⟩ Gen.facts m s tag v d).1 = (Engine.run ⟨fmt, ω₂⟩ Gen.facts m s tag v d).1 ∧
+    (Engine.run ⟨fmt, ω₁⟩ Gen.facts m s tag v d).2.sink.Perm (Engine.run ⟨fmt, ω₂⟩ Gen.facts m s tag v d).2.sink := by
+  rw [engine_is_spec, engine_is_spec]
+  obtain ⟨h1, h2, _⟩ := C09_partial_spec fmt ω₁ ω₂ m s hp hw tag v d
+  exact ⟨h1, h2⟩
+
+/-- success is order independent (corollary): if one order reports no issue, none does -/
+theorem success_order_independent (fmt : String → String → List (String × String) → String) (ω₁ ω₂ : String → List String)
+    (m : Mode) (s : Schema) (hp : s.postFree = true) (hw : s.WF) (tag : Option String) (v : Val) (d : DVal)
+    (h : (Spec.run ⟨fmt, ω₁⟩ m s tag v d).2.sink = []) : (Spec.run ⟨fmt, ω₂⟩ m s tag v d).2.sink = [] := by
+  have := (C09_partial_spec fmt ω₁ ω₂ m s hp hw tag v d).2.1
+  rw [h] at this
+  exact List.Perm.eq_nil this.symm
 
 /-! ## the full statement is false: PostTransform gating (known finding D19)
 
@@ -92,5 +110,33 @@ theorem full_statement_false :
     ((Spec.run envAB .parse witness none witnessIn witnessDest).2.sink.map (·.code)) = ["gt"] ∧
     ((Spec.run envBA .parse witness none witnessIn witnessDest).2.sink.map (·.code)) = ["gt", "a_upper"] := by
   constructor <;> decide
+
+/-! ### non-vacuity: the hypotheses of `C09_partial` are met by a concrete two-field schema -/
+def witnessNoPost : Schema :=
+  .struct (.cons "a" ⟨"A", []⟩ (.prim { fieldA with posts := [] }) (.cons "b" ⟨"B", []⟩ (.prim fieldB) .nil)) [aIsX] []
+
+example : witnessNoPost.postFree = true := by decide
+
+example : witnessNoPost.WF := by
+  refine ⟨?_, trivial, trivial, trivial⟩
+  intro a b ka fma sa kb fmb sb ha hb hab
+  simp only [Fields.find] at ha hb
+  split at ha
+  · split at hb
+    · rename_i h1 h2
+      exact absurd ((by simpa using h1 : "a" = a).symm.trans (by simpa using h2 : "a" = b)) hab
+    · split at hb
+      · simp only [Option.some.injEq, Prod.mk.injEq] at ha hb
+        rw [← ha.2.1, ← hb.2.1]; decide
+      · simp at hb
+  · split at ha
+    · split at hb
+      · simp only [Option.some.injEq, Prod.mk.injEq] at ha hb
+        rw [← ha.2.1, ← hb.2.1]; decide
+      · split at hb
+        · rename_i h1 _ h2
+          exact absurd ((by simpa using h1 : "b" = a).symm.trans (by simpa using h2 : "b" = b)) hab
+        · simp at hb
+    · simp at ha
 
 end Zog.Props.C09
